@@ -20,6 +20,8 @@ type HarnessSpec struct {
 	Concurrent bool           `json:"concurrent"`
 	Covers     []string       `json:"covers"` // labels that must be reachable
 	NoRange    bool           `json:"no_range"`
+	RealBodies []string       `json:"real_bodies"`
+	Abstract   bool           `json:"abstract_inputs"`
 }
 
 type PropSpec struct {
